@@ -172,6 +172,17 @@ def encoder_settings(tier, seed):
     full = settings_space('quick', seed)
     rest = [x for x in full if len(x[0]) + len(x[1]) > 2]
     sp += rng.sample(rest, 45 if tier == 'quick' else 300)
+    # many valid matrices for one pattern (all nodes present only): encoders whose variables depend on the matrix count
+    one_ = (('list', (1,)), False)
+    opt_ = (('range', 0, 1), False)
+    any_ = (('min', 0), False)
+    for n in (range(3, 14) if tier == 'quick' else range(3, 26)):
+        sp.append(([one_], [opt_] * n, (), 'present-only'))
+    wide = [([any_], [opt_] * 3, ()), ([opt_, opt_], [opt_] * 3, ()), ([any_, any_], [opt_, opt_], ()),
+            ([(('range', 0, 2), True)], [(('range', 0, 2), True)] * 2, ()), ([one_, one_], [any_] * 3, ()),
+            ([one_, one_, one_], [any_, any_], ()), ([any_, opt_], [opt_, opt_, opt_], ((0, 0),))]
+    for w in (wide if tier == 'quick' else wide + [([any_], [opt_] * 4, ()), ([any_, any_], [opt_] * 3, ()), ([any_, any_], [any_, opt_], ())]):
+        sp.append(w + ('present-only',))
     return sp
 
 
@@ -203,9 +214,14 @@ def encoder_chunk(chunk, tier, seed):
     from adsg_core.optimization.assign_enc.encoding import Encoder
     ctx = Ctx(None)
     facs = factories()
-    for src, tgt, ex in chunk:
+    for item in chunk:
+        src, tgt, ex = item[:3]
         label = f'src={src} tgt={tgt} excluded={list(ex)}'
-        patterns = NodeExistencePatterns.get_all_combinations([True] * len(src), [True] * len(tgt))
+        if len(item) > 3 and item[3] == 'present-only':
+            patterns = NodeExistencePatterns.always_exists()
+            label += ' (all nodes present)'
+        else:
+            patterns = NodeExistencePatterns.get_all_combinations([True] * len(src), [True] * len(tgt))
 
         def mk_settings():
             return MatrixGenSettings([mk_node(s) for s in src], [mk_node(t) for t in tgt],
